@@ -198,6 +198,8 @@ func runC07Read(ctx *core.Ctx, r *core.Rng) {
 		sz = fmts.Tiny
 	case x < 11:
 		sz = fmts.Medium
+	case x < 40:
+		sz = fmts.Multi
 	}
 	w, ref, ok := wellFormed(ctx, r, f, sz)
 	ctx.EvS("C07.read " + f.Name)
@@ -337,7 +339,7 @@ func runC07Write(ctx *core.Ctx, r *core.Rng) {
 
 func runC07File(ctx *core.Ctx, r *core.Rng) {
 	f := core.Pick(r, fmts.All)
-	w, ref, ok := wellFormed(ctx, r, f, fmts.Small)
+	w, ref, ok := wellFormed(ctx, r, f, core.Pick(r, []fmts.Size{fmts.Small, fmts.Multi}))
 	ctx.EvS("C07.file " + f.Name)
 	ctx.EvB(w)
 	if !ok {
